@@ -311,6 +311,7 @@ class HardcodeSwitch(JMCFunction):
             self.name,
             start_at,
             [*range(start_at, count + 1)],
+            guard_single_case=True,
         )
 
 
